@@ -48,9 +48,9 @@ CHECKS = {
  "C14": dict(cat="exploration", tech="deterministic simulation: foreign issuers (generic JSON producers) and a generic JSON parser + independent RFC 3339 reader as reference model; the same claims travel as tokens in C01/C11",
    text="All 128 presence patterns of RegisteredClaims with adversarial Unicode strings and full-range ns timestamps are encoded, inspected on the wire by a generic JSON parser and an independent RFC 3339 reader, and decoded back; foreign JSON objects (extra, nested, reordered, null, wrongly typed, duplicated members, escaped names, other RFC 3339 spellings) must, whenever accepted, give each claim the generic reading; Json<T> bytes equal serde_json's.",
    note="pure codec: simulation contributes the foreign-issuer party and the in-world traffic; inputs are sampled (presence patterns enumerated)", ref="5 C14"),
- "C17": dict(cat="exploration", tech="deterministic simulation: baton scheduler over 2..16 real OS threads sharing key objects, seeded random / PCT / round-robin interleavings at operation boundaries, bit-identity against sequential re-execution; crash containment by child processes; Miri seeded preemption for the pure-Rust backends (thorough)",
-   text="Thread episodes on all six backends (real aws-lc and libsodium code): shared key objects (created on one OS thread, used on others, dropped on a third), private clones, clones handed to other threads to drop, scripts mixing succeeding and deliberately failing operations; exactly one thread runs at a time and the seeded scheduler chooses at every operation boundary. Because every random draw is a per-(thread, operation) seeded stream, each result must be bit-identical to the script run alone on fresh keys and to the script without its failing operations; shared key bytes and a probe decrypt/verify are unchanged afterwards; a process abort is located, minimised and replayed through child processes. Thorough tier adds Miri (data-race and UB detection, seeded preemption) for paseto-v2/v4/core.",
-   note="preemption inside an aws-lc or libsodium call is out of reach (one runnable thread at a time; Miri cannot cross FFI): data races inside the C code on a shared EC_KEY would need a race detector on truly parallel runs, which is runtime monitoring, not this technique", ref="5 C17"),
+ "C17": dict(cat="exploration", tech="deterministic simulation: baton scheduler over 2..16 real OS threads sharing key objects, seeded random / PCT / round-robin interleavings at operation boundaries and, for the aws-lc backend, at every FFI call inside an operation (link-time wrapped aws-lc entry points are scheduling points); bit-identity against sequential re-execution; crash containment by child processes; Miri seeded preemption for the pure-Rust backends (thorough)",
+   text="Thread episodes on all six backends (real aws-lc and libsodium code): shared key objects (created on one OS thread, never used before the episode, used on others, dropped on a third), private clones, clones handed to other threads to drop, scripts mixing succeeding and deliberately failing operations (incl. rejected keys of the right length followed by sign/verify/key exchange on the same thread, token refresh). Exactly one thread runs at a time and the seeded scheduler chooses at every operation boundary; in two thirds of the paseto-v3-aws-lc episodes every call from the Rust wrapper into aws-lc is a scheduling point too (ld --wrap trampolines around the 28 aws-lc functions the backend uses; nested calls made by aws-lc itself never yield), which interleaves threads between any two FFI calls of one operation. Because every random draw is a per-(thread, operation) seeded stream, each result must be bit-identical to the script run alone on fresh keys and to the script without its failing operations; shared key bytes and a probe decrypt/verify are unchanged afterwards; nothing panics; a process abort is located, minimised and replayed through child processes; failing episodes are shrunk to fewer threads and shorter scripts. Thorough tier adds Miri (data-race and UB detection, seeded preemption) for paseto-v2/v4/core and the ASan build.",
+   note="preemption inside a single aws-lc or libsodium call, and between Rust statements that make no FFI call, is out of reach of the baton scheduler (Miri covers the latter for the pure-Rust backends only): a data race inside the C code on a shared EC_KEY would need a race detector on truly parallel runs, which is runtime monitoring, not this technique", ref="5 C17"),
 }
 
 NA = {
